@@ -90,6 +90,27 @@ def run_group(case, ctx):
     ctx.check("term_diagonal_in_basis", diag_ok, "a term is not diagonal in its group's measurement basis",
               lambda: dict(wit, groups={repr(b): repr(dict(o.terms)) for b, o in groups.items()}))
     ctx.check("grouping_is_partition", dict(op.terms) == before, "group_qwc modified its input operator", wit)
+    # a second operator with the same Pauli words in the same order but other coefficients (e.g. the next point of a geometry scan),
+    # grouped with the same seed in the same process: its groups carry ITS coefficients
+    if seed is not None:
+        from tangelo.toolboxes.operators import QubitOperator as _TQ
+        op2 = _TQ()
+        terms2 = {}
+        for t in op.terms:
+            terms2[t] = pr.uniform(-2, 2)
+            op2.terms[t] = terms2[t]
+        groups2 = group_qwc(op2, seed=seed, n_repeat=n_rep)
+        seen2 = collections.Counter()
+        ok2 = True
+        for basis, sub in groups2.items():
+            for t, c in sub.terms.items():
+                seen2[t] += 1
+                if t not in terms2 or abs(terms2[t] - c) > 1e-12:
+                    ok2 = False
+        ctx.check("grouping_is_partition", ok2 and set(seen2) == set(terms2) and all(v == 1 for v in seen2.values()),
+                  "grouping a second operator (same Pauli words, other coefficients, same seed) does not return that operator's coefficients",
+                  lambda: dict(wit, second_terms=[[list(map(list, t)), c] for t, c in terms2.items()],
+                               groups={repr(b): repr(dict(o.terms)) for b, o in groups2.items()}))
     # assembled expectation value from exact per-basis histograms
     psi = gen.random_state(rng, n)
     hists = {b: exact_basis_hist(psi, n, b) for b in groups}
